@@ -15,6 +15,7 @@ import (
 	"strconv"
 	"strings"
 	"sync"
+	"sync/atomic"
 	"testing"
 	"time"
 
@@ -506,6 +507,126 @@ func runAbortedHandshakes(rec *vcommon.Rec, sc *scenario) {
 	}
 }
 
+// runDeafApps: growth over logical connections whose application shuts its sending side down at once and never reads,
+// while the target keeps sending more than any socket buffer holds. The application's end-of-stream ends the logical
+// connection: the target must see it closed (its flood fails) although the application never reads a byte and keeps its
+// socket; afterwards nothing may be held for it.
+func runDeafApps(rec *vcommon.Rec, sc *scenario) {
+	sig := "growth:" + sc.Carrier + ":" + sc.Mode
+	p, err := e2e.Start(e2e.Options{Carrier: sc.Carrier})
+	if err != nil {
+		rec.Violation(sig+":setup-failed", sc, err.Error())
+		return
+	}
+	defer p.Close()
+	type halfCloser interface{ CloseWrite() error }
+	var apps []net.Conn
+	defer func() {
+		for _, a := range apps {
+			a.Close()
+		}
+	}()
+	one := func(i int) *e2e.Failure {
+		app, tgt, o, err := p.Open("echo")
+		if err != nil || o != e2e.Done {
+			return &e2e.Failure{Kind: "open-failed", Inconclusive: o == e2e.Inconclusive}
+		}
+		defer tgt.Close()
+		hc, ok := app.(halfCloser)
+		if !ok {
+			app.Close()
+			return &e2e.Failure{Kind: "harness: no CloseWrite on the application socket"}
+		}
+		apps = append(apps, app) // the application keeps its socket and never reads
+		var sent int64
+		ended := e2e.Go(func() {
+			buf := make([]byte, 32768)
+			for atomic.LoadInt64(&sent) < 64<<20 {
+				n, err := tgt.Write(buf)
+				atomic.AddInt64(&sent, int64(n))
+				if n > 0 {
+					e2e.Bump(n)
+				}
+				if err != nil {
+					return
+				}
+			}
+		})
+		if i%2 == 0 {
+			// every second application finishes only when the flood towards it has come to a standstill (every buffer on the
+			// way is full and the copy towards the application is blocked in its Write)
+			last, same := int64(-1), 0
+			for k := 0; k < 400 && same < 6; k++ {
+				time.Sleep(25 * time.Millisecond)
+				if v := atomic.LoadInt64(&sent); v == last {
+					same++
+				} else {
+					last, same = v, 0
+				}
+			}
+		}
+		hc.CloseWrite()
+		switch e2e.Wait(ended) {
+		case e2e.Stalled:
+			return &e2e.Failure{Kind: "target-never-sees-the-end-of-a-connection-whose-application-has-finished", Info: map[string]interface{}{"connection_number": i, "flood_bytes_accepted": atomic.LoadInt64(&sent), "goroutines": e2e.Clip(e2e.Stacks(), 30000)}}
+		case e2e.Inconclusive:
+			return &e2e.Failure{Kind: "busy", Inconclusive: true}
+		}
+		if atomic.LoadInt64(&sent) >= 64<<20 {
+			return &e2e.Failure{Kind: "target-could-send-64MiB-to-an-application-that-never-reads", Info: map[string]interface{}{"connection_number": i}}
+		}
+		return nil
+	}
+	batch := func(from, to int) *e2e.Failure {
+		for i := from; i < to; i++ {
+			if f := one(i); f != nil {
+				return f
+			}
+		}
+		// every logical connection of the batch has ended (its target has seen the end) while the applications still hold
+		// their sockets: no copy loop may be left
+		if pr, _ := quiesce(func(p probe) bool { return p.Pipes == 0 }, 30*time.Second); pr.Pipes > 0 {
+			return &e2e.Failure{Kind: "copy-loops-left-for-connections-that-have-ended(applications-still-hold-their-sockets)", Info: map[string]interface{}{"copy_loops_outstanding": pr.Pipes, "applications": len(apps), "probe": describe(pr)}}
+		}
+		for _, a := range apps { // the applications go away at the end of a batch; their own descriptors are not the system's
+			a.Close()
+		}
+		apps = nil
+		return nil
+	}
+	n1, n2 := sc.N1/5, sc.N2/5
+	if f := batch(0, 4); f != nil {
+		report(rec, sc, sig+":warmup", f)
+		return
+	}
+	if f := batch(4, 4+n1); f != nil {
+		report(rec, sc, sig+":batch1", f)
+		return
+	}
+	p1, q1 := quiesce(func(p probe) bool { return p.Pipes == 0 }, 30*time.Second)
+	if f := batch(4+n1, 4+n2); f != nil {
+		report(rec, sc, sig+":batch2", f)
+		return
+	}
+	p2, q2 := quiesce(func(p probe) bool { return p.Pipes == 0 }, 30*time.Second)
+	rec.Case(fmt.Sprintf("%v", *sc), true)
+	rec.Stat("logical_connections_finished", int64(4+n2))
+	rec.Seen("scenario", sc.Kind+"/"+sc.Carrier+"/"+sc.Mode)
+	rec.Sample(map[string]interface{}{"scenario": sc, "after_n1": describe(p1), "after_n2": describe(p2), "quiescent": []bool{q1, q2}})
+	const slack = 4
+	for c, k := range p2.G {
+		if d := k - p1.G[c]; d > slack {
+			rec.Violation(fmt.Sprintf("%s:goroutines-grow:%s", sig, c), sc, map[string]interface{}{"after_n1": describe(p1), "after_n2": describe(p2)})
+		}
+	}
+	if d := p2.FDs - p1.FDs; d > slack {
+		rec.Violation(sig+":descriptors-grow", sc, map[string]interface{}{"after_n1": describe(p1), "after_n2": describe(p2)})
+	}
+	if p2.Pipes-p1.Pipes > slack {
+		rec.Violation(sig+":copy-loops-grow", sc, map[string]interface{}{"after_n1": describe(p1), "after_n2": describe(p2)})
+	}
+}
+
 // runUpstreamAway: growth over local connections that cannot be served because the only upstream is down for a while
 // (each must be ended by the client), with served connections before and after each outage. Two outages of different
 // length; what is held after the second must not exceed what was held after the first.
@@ -930,6 +1051,9 @@ func scenarios(rec *vcommon.Rec) []*scenario {
 			add(scenario{Kind: "growth", Carrier: c, Mode: m, N1: n1, N2: n2})
 		}
 	}
+	// applications that finish at once and never read, targets that flood
+	add(scenario{Kind: "growth", Carrier: "tcp", Mode: "deaf-applications", N1: n1, N2: n2})
+	add(scenario{Kind: "growth", Carrier: "ws", Mode: "deaf-applications", N1: n1, N2: n2})
 	// the only upstream is away for a while
 	add(scenario{Kind: "growth", Carrier: "tcp", Mode: "upstream-away", N1: n1, N2: n2})
 	add(scenario{Kind: "growth", Carrier: "ws", Mode: "upstream-away", N1: n1, N2: n2})
@@ -948,7 +1072,7 @@ func scenarios(rec *vcommon.Rec) []*scenario {
 			modes = []string{"client-shutdown", "blackhole"}
 		}
 		for _, m := range modes {
-			if m == "blackhole" && !rec.Thorough() && c != "tcp" && c != "udp" {
+			if m == "blackhole" && !rec.Thorough() && c != "tcp" && c != "udp" && c != "ws" {
 				continue
 			}
 			add(scenario{Kind: "end", Carrier: c, Mode: m})
@@ -963,7 +1087,9 @@ func TestVerifC14(t *testing.T) {
 	defer rec.Close()
 	run := func(sc *scenario) {
 		rec.Mark(sc)
-		if sc.Kind == "growth" && sc.Mode == "upstream-away" {
+		if sc.Kind == "growth" && sc.Mode == "deaf-applications" {
+			runDeafApps(rec, sc)
+		} else if sc.Kind == "growth" && sc.Mode == "upstream-away" {
 			runUpstreamAway(rec, sc)
 		} else if sc.Kind == "growth" && sc.Mode == "aborted-handshakes" {
 			runAbortedHandshakes(rec, sc)
